@@ -26,6 +26,14 @@ K1_C17 = ['InstanceManager.is_valid_instance', 'InstanceManager._timeout_instanc
 K1_C18 = ['bptk.lock', 'bptk.unlock', 'bptk.is_locked', 'BptkServer._run_steps_resource', 'BptkServer._run_step_resource',
           'BptkServer._stream_steps_resource.streamer']
 K1_C15 = ['BptkServer.token_required.decorated']
+K1_C16 = ['InstanceManager.is_valid_instance', 'InstanceManager._timeout_instances', 'InstanceManager._update_instance_timestamp',
+          'InstanceManager.keep_instance_alive', 'InstanceManager.get_instance', 'InstanceManager._make_bptk',
+          'InstanceManager.create_instance', 'InstanceManager._delete_instance', 'InstanceManager.reconstruct_instance',
+          'BptkServer._ensure_instance_exists', 'BptkServer._begin_session_resource', 'BptkServer._end_session_resource',
+          'BptkServer._session_results_resource', 'BptkServer._flat_session_results_resource', 'BptkServer._keep_alive_resource',
+          'BptkServer._stop_instance_resource', 'BptkServer._start_instance_resource', 'BptkServer._start_instances_resource',
+          'BptkServer._run_step_resource', 'BptkServer._run_steps_resource', 'BptkServer._stream_steps_resource.streamer',
+          'Adapter.save_instance', 'Adapter.load_instance']
 
 _SRV_ASSUME = [
     'Flask: request / make_response / Response behave as declared in the assumed contracts (make_response returns a fresh object with the given status and touches nothing else); dispatch calls exactly the registered view function; uncaught exceptions become 500',
@@ -46,6 +54,33 @@ _SCEN_ASSUME = ['scenario lookup (ScenarioManagerFactory.get_scenarios) returns 
                 'Python semantics of the subset (DESIGN 2.2.7); single-threaded']
 
 PROPS = {
+    'C10': dict(
+        mods=[], k1=[], level='other', engines=['contracts.c10_arrays'],
+        harness='verif/native/c10_harness.py', harness_budget=(15, 60), always_harness=True,
+        explanation='BOUNDED in shape, all element values: the real sddsl classes build every arrayed equation of the enumeration (element-wise + - * / '
+                    'with arrays, scalar elements and numbers in both operand orders, indexed and named; dot in all vector/matrix/scalar pairings; the seven '
+                    'aggregates; composite forms) for all operand shapes up to the bound (vectors 1..3, matrices up to 3x3, thorough 4); the function string '
+                    'generated for every result element is proved equal (z3, reals, all leaf values) to the entry numpy computes on object arrays of the same '
+                    'symbolic leaves; mismatched shapes must be refused or must not yield a value. A numeric replay (values vs numpy) runs on every check',
+        assumptions=[], not_decided=['bounded stand-in, never counted as proved: shapes beyond the bound are not covered; no contract is discharged for '
+                                     'all shapes (resolve_dimensions / clone_with_index return int-or-list unions outside the K1 subset)',
+                                     'refusing a well-shaped form with an error is allowed by the property and only counted (unsupported forms are listed in the evidence)']),
+    'C16': dict(
+        mods=['contracts.c16_isolation'], k1=K1_C16, level='proof',
+        harness='verif/native/c16_harness.py', harness_budget=(25, 150), always_harness=True,
+        explanation='instance isolation in FRAME form, function by function: every InstanceManager operation and every instance-scoped request '
+                    'handler (begin/end session, run-step, run-steps, stream-steps generator, session results, keep-alive, stop, restore-on-demand) '
+                    'leaves the table entry of every OTHER id unchanged or removes it only when that id\'s own timeout has elapsed, changes the session '
+                    'state of no bptk object but the one registered under the addressed id, and keeps different ids on different bptk objects; the '
+                    'creating handlers (start-instance, start-instances with its loop) add fresh objects only. The 2-safety conclusion (responses equal the '
+                    'solo run) follows from the frame plus the assumed per-object contracts of the bptk methods; it is additionally searched natively '
+                    '(interleaved vs solo replay on the live app, bounded, not counted as proved)',
+        assumptions=_SRV_ASSUME + ['bptk methods (begin_session, run_step, end_session, session_results, destroy) read and write only their receiver: the '
+                                   'objects handed out by the user\'s bptk factory share no mutable state (scenario managers, models, module-level config)',
+                                   'uuid1().hex values of different UUID objects differ and are not yet keys of the table (library assumption, stated inductively)',
+                                   'decorators (token_required) are decided in C15; the handler bodies are verified as written'],
+        not_decided=['not decided deductively: equality of HTTP bodies with the solo run as such (2-safety); decided in frame form + bounded native search',
+                     'not decided: the module-level configuration dictionary aliased by every conf() (process-wide by design; identical for all instances of a server because one factory builds them)']),
     'C19': dict(
         mods=['contracts.c19_state'], k1=['InstanceManager._get_instance_state', 'bptk._set_state', 'InstanceManager.reconstruct_instance',
                                           'Adapter.save_instance', 'Adapter.load_instance', 'Adapter.load_state'],
@@ -168,7 +203,7 @@ PROPS = {
         not_decided=['not decided deductively: which handlers reach get_instance (the access obligation per handler) and the restore-from-external-state path -- covered by the native harness only',
                      'not decided: real-time behaviour (the clock is a ghost)']),
     'C18': dict(
-        mods=['contracts.c15_c18_server'], k1=K1_C18, level='proof',
+        mods=['contracts.c16_isolation'], k1=K1_C18, level='proof',
         harness='verif/native/c18_harness.py', harness_budget=(20, 90),
         explanation='all-exit-paths lock contracts (normal return, every exception edge, generator closed at each yield) on _run_steps_resource, '
                     '_run_step_resource and the streamer generator, plus functional contracts on bptk.lock/unlock/is_locked: the lock of the addressed '
